@@ -134,10 +134,10 @@ def run(ctx):
         # ---- propagation as a function of the field, every method
         for name in ('Angular Spectrum', 'Bandlimited Angular Spectrum', 'Transfer Function Fresnel', 'Impulse Response Fresnel',
                      'Seperable Impulse Response Fresnel', 'Incoherent Angular Spectrum', 'Fraunhofer'):
-            for zp in ([False, False, False], [True, False, True]):
+            for zp in ([False, False, False], [True, False, True], [True, True, True]):
                 if name == 'Fraunhofer' and zp[0]:
                     continue
-                jvp_check(ctx, 'propagate_beam(%s, pad=%s)/field' % (name, zp[0]),
+                jvp_check(ctx, 'propagate_beam(%s, pad=%s%s)/field' % (name, zp[0], ', Fourier pad' if zp[1] else ''),
                           lambda x: LW.propagate_beam(torch.complex(x[0], x[1]), k, 1.5, 0.8, 0.5, propagation_type=name, zero_padding=zp, samples=[2, 2, 2, 2]),
                           rnd(2, 6, 6), 1e-5)
         # ---- propagator forward model (first call and cached call)
@@ -188,6 +188,7 @@ def run(ctx):
                   torch.tensor([[0.3, 0.3, 0.0], [0.05, 0.02, 1.0]], dtype=torch.float32) + rnd(2, 3, lo=-0.05, hi=0.05, dtype=torch.float32), 3e-2)
         jvp_check(ctx, 'intersect_w_triangle/triangle', lambda t: LR.intersect_w_triangle(torch.tensor([[0.3, 0.3, 0.0], [0.0, 0.0, 1.0]]), t)[0][:, 0].reshape(-1),
                   tri + rnd(3, 3, lo=-0.05, hi=0.05, dtype=torch.float32), 3e-2)
+        more_ray_entries(ctx, rnd)
         # ---- colour conversions (away from thresholds)
         col = rnd(1, 3, 2, 2, lo=0.15, hi=0.9, dtype=torch.float32)
         # hue is singular on the grey axis and kinked where two channels tie (arg-max switch, hue wrap): well-separated channels for HSV
@@ -277,8 +278,116 @@ def run(ctx):
         ml = LW.multiplane_loss(img, rnd(10, 12, lo=0, hi=1, dtype=torch.float32), number_of_planes=2, target_blur_size=3)
         tg = ml.get_targets()[0][0]
         jvp_check(ctx, 'multiplane_loss', lambda x: ml(x, tg, plane_id=0).reshape(1), rnd(3, 10, 12, lo=0.1, hi=0.9, dtype=torch.float32), 3e-2)
+        more_colour_and_loss_entries(ctx, rnd)
         jvp_check(ctx, 'phase_gradient', lambda x: LW.phase_gradient()(x).reshape(1), rnd(8, 8, lo=0, hi=6, dtype=torch.float32), 3e-2)
         jvp_check(ctx, 'speckle_contrast', lambda x: LW.speckle_contrast(kernel_size=3)(x).reshape(1), rnd(8, 8, lo=0.2, hi=1.0, dtype=torch.float32), 5e-2)
+
+
+def more_ray_entries(ctx, rnd):
+    """intersect_w_circle (ray, plane points; inside and outside the radius), planar_mesh.mirror w.r.t. the mesh heights (flat and
+    rough meshes, tilted and not), the two luminous-angle generators w.r.t. origin / centre (torch reseeded before every evaluation)"""
+    import odak.learn.raytracing as LR
+    from odak.learn.raytracing.mesh import planar_mesh
+    rng = ctx.rng
+    F = torch.float32
+    ray0 = torch.tensor([[0.3, 0.3, 0.0], [0.05, 0.02, 1.0]], dtype=F)
+    for tag, radius, tilt in (('inside', 1.5, [10., -15., 5.]), ('outside', 0.05, [10., -15., 5.]), ('inside/untilted', 2.0, [0., 0., 0.])):
+        circ = LR.define_circle(torch.tensor([0.1, 0.2, 2.0]), radius, torch.tensor(tilt))
+
+        def f_ray(x, circ=circ):
+            n, d = LR.intersect_w_circle(torch.stack([x[0], x[1] / x[1].norm()]), circ)
+            return torch.cat([n[0].reshape(-1), d.reshape(-1)])
+
+        def f_plane(t, circ=circ):
+            n, d = LR.intersect_w_circle(torch.stack([ray0[0], ray0[1] / ray0[1].norm()]), [t, circ[1], circ[2]])
+            return torch.cat([n.reshape(-1), d.reshape(-1)])
+        jvp_check(ctx, 'intersect_w_circle/ray/' + tag, f_ray, ray0 + rnd(2, 3, lo=-0.05, hi=0.05, dtype=F), 3e-2, cls={'circle': tag})
+        jvp_check(ctx, 'intersect_w_circle/plane/' + tag, f_plane, circ[0].clone() + rnd(3, 3, lo=-0.05, hi=0.05, dtype=F), 3e-2, cls={'circle': tag}, h=1e-2)
+    # planar_mesh.mirror: reflected rays (hit points and directions) as a function of the node heights
+    for tag, nodes, tilt, rough in (('flat', [3, 3], [0., 0., 0.], 0.0), ('rough', [3, 4], [0., 0., 0.], 0.08), ('rough/tilted', [4, 3], [12., -8., 20.], 0.08),
+                                    ('flat/2x2', [2, 2], [5., 5., 0.], 0.0)):
+        size, offset = [2.0, 3.0], [0.3, -0.2, 4.0]
+        n0, n1 = nodes
+        # rays aimed (in the mesh frame) at the interior of the lower-left triangle of two squares, from 3 units in front of the mesh
+        xs, ys = np.linspace(-size[0] / 2, size[0] / 2, n0), np.linspace(-size[1] / 2, size[1] / 2, n1)
+        rays = []
+        for (i, j) in ((0, 0), (n0 - 2, n1 - 2)):
+            tx, ty = xs[i] + 0.3 * (xs[i + 1] - xs[i]), ys[j] + 0.3 * (ys[j + 1] - ys[j])
+            o = np.array([tx + rng.uniform(-0.5, 0.5), ty + rng.uniform(-0.5, 0.5), -3.0])
+            d = np.array([tx, ty, 0.0]) - o
+            rays.append([o, d / np.linalg.norm(d)])
+        rays = np.array(rays)
+        mesh0 = planar_mesh(size=torch.tensor(size), number_of_meshes=torch.tensor(nodes), angles=torch.tensor(tilt), offset=torch.tensor(offset))
+        from odak.learn.tools import rotate_points
+        ro, *_ = rotate_points(torch.tensor(rays[:, 0], dtype=F), angles=torch.tensor(tilt))
+        rd, *_ = rotate_points(torch.tensor(rays[:, 1], dtype=F), angles=torch.tensor(tilt))
+        trays = torch.stack([ro + torch.tensor(offset), rd], dim=1).detach()
+
+        def f_mesh(hgt, nodes=nodes, tilt=tilt, trays=trays, size=size, offset=offset):
+            mesh = planar_mesh(size=torch.tensor(size), number_of_meshes=torch.tensor(nodes), angles=torch.tensor(tilt), offset=torch.tensor(offset), heights=hgt)
+            out, normals = mesh.mirror(trays)
+            if out.shape[0] != trays.shape[0]:
+                raise RuntimeError('mirror returned %d rays for %d rays aimed inside the mesh' % (out.shape[0], trays.shape[0]))
+            return torch.cat([out.reshape(-1), normals[:, 1].reshape(-1)])
+        jvp_check(ctx, 'planar_mesh.mirror/heights/' + tag, f_mesh, rnd(n0, n1, 1, lo=-1.0, hi=1.0, dtype=F) * rough, 3e-2, cls={'mesh': tag}, h=5e-3)
+    # luminous-angle generators: rays [n x 2 x 3] as a function of the origin / centre; the random cone directions are the same in every evaluation
+    for tag, tilt, limit in (('tilted', [20., -35., 50.], 30.0), ('untilted', [0., 0., 0.], 75.0)):
+        seed = rng.randrange(10 ** 6)
+
+        def f_point(x, seed=seed, tilt=tilt, limit=limit):
+            torch.manual_seed(seed)
+            return LR.create_ray_from_point_w_luminous_angle(x, 4, torch.tensor(tilt), limit).reshape(-1)
+
+        def f_grid(x, seed=seed, tilt=tilt, limit=limit):
+            torch.manual_seed(seed)
+            return LR.create_ray_from_grid_w_luminous_angle(x, [1.5, 2.5], [2, 3], torch.tensor(tilt), 2, limit).reshape(-1)
+        jvp_check(ctx, 'create_ray_from_point_w_luminous_angle/origin/' + tag, f_point, rnd(3, lo=-2, hi=2, dtype=F), 2e-2, cls={'tilt': tag})
+        jvp_check(ctx, 'create_ray_from_grid_w_luminous_angle/centre/' + tag, f_grid, rnd(3, lo=-2, hi=2, dtype=F), 2e-2, cls={'tilt': tag})
+
+
+def more_colour_and_loss_entries(ctx, rnd):
+    """display_color_hvs stages (primaries -> LMS -> third stage, LMS -> primaries), multi_scale_total_variation_loss, perceptual_multiplane_loss"""
+    import odak.learn.tools as LT
+    import odak.learn.wave as LW
+    import odak.learn.perception.color_conversion as CC
+    rng = ctx.rng
+    F = torch.float32
+    for P in (3, 4):
+        hvs = CC.display_color_hvs(read_spectrum='tensor', primaries_spectrum=rnd(P, 301, lo=0.0, hi=1.0, dtype=F))
+        for B in (1, 2):
+            x0 = rnd(B, P, 3, 2, lo=0.05, hi=0.95, dtype=F)
+            if P != 3:
+                try:
+                    hvs.primaries_to_lms(x0)
+                except RuntimeError:
+                    ctx.count('rejected/display_color_hvs.primaries_to_lms with %d primaries (reshape error)' % P)
+                    continue
+            jvp_check(ctx, 'display_color_hvs.primaries_to_lms/%d primaries' % P, lambda x: hvs.primaries_to_lms(x), x0, 3e-2, cls={'primaries': P})
+        jvp_check(ctx, 'display_color_hvs.lms_to_primaries/%d primaries' % P, lambda x: hvs.lms_to_primaries(x), rnd(2, 3, 2, 3, lo=0.5, hi=30.0, dtype=F), 3e-2,
+                  cls={'primaries': P}, h=2e-2)
+        jvp_check(ctx, 'display_color_hvs.second_to_third_stage', lambda x: hvs.second_to_third_stage(x), rnd(2, 3, 2, 3, lo=0.5, hi=30.0, dtype=F), 3e-2, h=2e-2)
+        if P == 3:
+            gt = rnd(1, 3, 3, 2, lo=0.05, hi=0.95, dtype=F)
+            jvp_check(ctx, 'display_color_hvs.__call__', lambda x: hvs(x, gt).reshape(1), rnd(1, 3, 3, 2, lo=0.05, hi=0.95, dtype=F), 3e-2)
+    for tag, shape, levels in (('[1x3xmxn]', (1, 3, 8, 12), 3), ('[3xmxn]', (3, 8, 8), 2), ('[mxn]', (12, 8), 3), ('[mxn]/1 level', (5, 7), 1)):
+        jvp_check(ctx, 'multi_scale_total_variation_loss/' + tag, lambda x, levels=levels: LT.multi_scale_total_variation_loss(x, levels=levels).reshape(1),
+                  rnd(*shape), 1e-6, cls={'frame': tag})
+    # perceptual_multiplane_loss, base terms (the additional perceptual metrics need packages that are not installed here);
+    # image and target are kept apart so that no L1 term sits on its kink
+    img = rnd(3, 10, 12, lo=0.1, hi=0.9, dtype=F)
+    depth = rnd(10, 12, lo=0, hi=1, dtype=F)
+    for scheme in ('defocus', 'naive'):
+        for reduction in ('mean', 'sum'):
+            pl = LW.perceptual_multiplane_loss(img, depth, number_of_planes=3, target_blur_size=3, scheme=scheme, additional_loss_weights={}, reduction=reduction)
+            tgs = pl.get_targets()[0]
+            for plane_id in (None, 0, 2):
+                tg = (tgs[0] if plane_id is None else tgs[plane_id]) * 0.4 + 0.05
+                x0 = rnd(3, 10, 12, lo=0.55, hi=0.95, dtype=F)
+                f = lambda x, pl=pl, tg=tg, plane_id=plane_id: pl(x, tg, plane_id=plane_id).reshape(1)
+                # float32 objective of size ~ number of pixels under 'sum': a step of 1e-2 keeps the rounding noise of the difference
+                # quotient below the tolerance (the terms are quadratic / linear between kinks, image - target >= 0.1 everywhere)
+                jvp_check(ctx, 'perceptual_multiplane_loss/%s/%s/plane_id=%s' % (scheme, reduction, plane_id), f, x0, 3e-2,
+                          cls={'scheme': scheme, 'reduction': reduction}, h=1e-2)
 
 
 def replay(ctx, rep):
